@@ -50,6 +50,8 @@ def run_case(case):
     name, nth = case['name'], case['Nthermo']
     diff = work_vac.get_calc(name, nth)
     real = diff.GFcalc
+    hist = work_vac.get_calc(name, nth, slot='history')   # never cleared between the inputs of a case (see C01)
+    hist.clearcache()
     tor = T.Torus(diff, max(T.Torus.needed_L(diff), 5))
     sample = None
     for k in range(case['ninputs']):
@@ -62,9 +64,11 @@ def run_case(case):
         for t in ('multi_wyckoff', 'dim2', 'origin_states'): mon.count(t, t in tags)
         mon.count('origin_states_with_spectators', 'origin_states' in tags and diff.crys.N != diff.N)
         try:
+            Lr = [np.array(x) for x in hist.Lij(*args)]
+            mon.count('inputs_on_uncleared_calculator', k > 0)
             diff.GFcalc = real
             diff.clearcache()
-            Lr = [np.array(x) for x in diff.Lij(*args)]
+            Lfresh = [np.array(x) for x in diff.Lij(*args)]
             diff.GFcalc = T.GFstub(real, tor, exact_eta=True)
             diff.clearcache()
             Ls = [np.array(x) for x in diff.Lij(*args)]
@@ -76,6 +80,11 @@ def run_case(case):
             diff.GFcalc = real
             diff.clearcache()
         sc = max(np.abs(Lr[0]).max(), 1e-300)
+        # the calculator that has seen the earlier inputs of this case against one whose caches were just cleared (otherwise a stale
+        # entry would pass for integration error: the denser-mesh calculators below are fresh objects)
+        for nm, a, b in zip(('L0vv', 'Lss', 'Lsv', 'L1vv'), Lr, Lfresh):
+            mon.close(a, b, 1e-9, 'C06:real:same-as-cleared-calculator:' + nm, lambda: 'after %d earlier inputs on the same object: %s vs %s %s' % (k, a.tolist(), b.tolist(), desc),
+                      tags, scale=max(np.abs(Lfresh[0]).max(), np.abs(b).max(), 1e-300))
         ev0 = np.linalg.eigvalsh(0.5 * (Lr[0] + Lr[0].T))
         if ev0.min() <= 0 or ev0.max() >= 50 * ev0.min():
             tags = tags + ['L0vv_anisotropy>=50']
@@ -118,4 +127,5 @@ def run_case(case):
         L0c, Lssc, Lsvc, L1c = tor.predict(args)
         if stub_ok: mon.close(Ls[1], Lssc, 1e-9 * max(1., spread / 100.), 'C06:stub:Lss=chain', dt, tags, scale=sc)
         mon.close(Lsvc, -L0c, 1e-9, 'C06:chain-selfcheck', dt, [], scale=sc)
+    hist.clearcache()
     return mon.result(sample=sample)
